@@ -7,7 +7,7 @@ SPEC = {
     'claim': 'every request sequence up to length 3 (quick) / 4 (thorough) over 8 sizes on the fallback allocator and through Acquire with every mmap ok/fail pattern, and every interleaving of 2-3 concurrent requesters with 1-2 requests each, yields regions that are big enough, executable, writable through the writer, pairwise disjoint and inside the reserve, with exhaustion reported as an error',
     'note': 'scheduling points are the sync/atomic operations and the mmap/mprotect calls of goom (import-rewritten copies of the working-tree files); memory-model effects below sequential consistency are not modelled',
     'jobs': [
-        {'bin': 'c20', 'sub': 'seq', 'shards': 8},
+        {'bin': 'c20', 'sub': 'seq', 'shards': 8, 'maxcases': 3000, 'max_restarts': 40},
         {'bin': 'c20', 'sub': 'conc', 'shards': 8},
     ],
     'rule': 'seq: all sequences over sizes {0,1,48,R/2,R-48,R,R+1,2^47+1} x (direct fallback | Acquire x all 2^len mmap ok/fail patterns), non-trivial = contains a request in (0,R]. '
